@@ -588,6 +588,14 @@ func (l *IPFSLog) Join(otherLog iface.IPFSLog, size int) (iface.IPFSLog, error) 
 				return
 			}
 
+			// That we do not hold the entry yet was decided by the key it is filed
+			// under in the other log; it is stored under its own hash, which is
+			// not part of what Verify checks: the two must be the same
+			if e.GetHash().String() != k {
+				setErr(errmsg.ErrLogJoinFailed)
+				return
+			}
+
 			if inErr := l.AccessController.CanAppend(e, l.Identity.Provider, &CanAppendContext{log: l}); inErr != nil {
 				setErr(inErr)
 				return
